@@ -408,8 +408,17 @@ static bool c10_begin(struct c10_cfg *c, uint8_t kind, uint8_t aux, const uint8_
 }
 
 /* a fresh instance with the configuration c (public API only) */
+static uint8_t c10_stale[sizeof(PersistentStorage)];
+static void c10_set_stale(const uint8_t *p)
+{
+    for (size_t i = 0; i < sizeof c10_stale; ++i)
+        c10_stale[i] = p[i];
+}
 static void c10_instance(PersistentStorage *s, const struct c10_cfg *c)
 {
+    /* the object holds arbitrary stale octets before persistent_init (automatic storage, reused memory) */
+    for (size_t i = 0; i < sizeof *s; ++i)
+        ((unsigned char *)s)[i] = c10_stale[i];
     persistent_init(s, N, m_read, m_write);
     if (c->order == 1)
         persistent_place(s, c->base);
